@@ -214,6 +214,21 @@ func init() {
 		name := st.goString(a[0], "vCoin name")
 		return st.coin(name), true
 	}
+	h["vAnd"] = func(st *State, th *Thread, a []Value, _ ssa.Instruction) (Value, bool) {
+		return st.c.BAnd(tw(a[0]), tw(a[1])), true
+	}
+	h["vOr"] = func(st *State, th *Thread, a []Value, _ ssa.Instruction) (Value, bool) {
+		return st.c.BOr(tw(a[0]), tw(a[1])), true
+	}
+	h["vNot"] = func(st *State, th *Thread, a []Value, _ ssa.Instruction) (Value, bool) {
+		return st.c.BNot(tw(a[0])), true
+	}
+	h["vB2I"] = func(st *State, th *Thread, a []Value, _ ssa.Instruction) (Value, bool) {
+		return st.c.BoolToBV(tw(a[0]), 64), true
+	}
+	h["vIteInt"] = func(st *State, th *Thread, a []Value, _ ssa.Instruction) (Value, bool) {
+		return st.c.Ite(tw(a[0]), tw(a[1]), tw(a[2])), true
+	}
 	h["vLog"] = func(st *State, th *Thread, a []Value, _ ssa.Instruction) (Value, bool) {
 		return nil, true
 	}
@@ -361,7 +376,7 @@ func init() {
 		return FloatV(1), true
 	})
 	reg("math/rand.Float32", func(st *State, th *Thread, a []Value, _ ssa.Instruction) (Value, bool) {
-		if st.coin("global").IsTrue() {
+		if st.p.Cfg.GlobalCoins && st.coin("global").IsTrue() {
 			return FloatV(0), true
 		}
 		return FloatV(1), true
